@@ -22,7 +22,7 @@ impl UserDefinedTransformer {
         for (pattern, template) in &self.rules {
             let mut substitutions = HashMap::new();
             if pattern.match_datum(&datum, 0, &self.literals, &mut substitutions)? {
-                let mut substituded = template.substitude(&substitutions)?;
+                let mut substituded = template.substitude(&substitutions, datum.location)?;
                 if substituded.len() != 1 {
                     return located_error!(
                         SyntaxError::TransformOutMultipleDatum,
@@ -310,11 +310,12 @@ impl Display for SyntaxTemplateBody {
 pub type SyntaxTemplate = Located<SyntaxTemplateBody>;
 
 impl SyntaxTemplate {
+    // data built from the template are located at the macro use, not in the macro definition
     pub fn substitude(
         &self,
         substitutions: &HashMap<String, (Datum, Vec<Datum>)>,
+        location: Option<[u32; 2]>,
     ) -> Result<Vec<Datum>, SchemeError> {
-        let location = self.location;
         match &self.data {
             SyntaxTemplateBody::Pair(list) => {
                 let mut substituted_pair_items = vec![];
@@ -324,10 +325,11 @@ impl SyntaxTemplate {
                             SyntaxTemplate::substitute_template_element(
                                 &template_element,
                                 substitutions,
+                                location,
                             )?,
                         ),
                         PairIterItem::Improper(SyntaxTemplateElement(last, false)) => {
-                            substituted_pair_items.extend(last.substitude(substitutions)?)
+                            substituted_pair_items.extend(last.substitude(substitutions, location)?)
                         }
                         _ => {
                             return error!(SyntaxError::UnexpectedDatum(
@@ -348,6 +350,7 @@ impl SyntaxTemplate {
                     substituted_vec.extend(SyntaxTemplate::substitute_template_element(
                         sub_template_element,
                         substitutions,
+                        location,
                     )?)
                 }
                 Ok(vec![DatumBody::Vector(substituted_vec).locate(location)])
@@ -360,7 +363,7 @@ impl SyntaxTemplate {
                 Ok(vec![DatumBody::Primitive(p.clone()).locate(location)])
             }
             SyntaxTemplateBody::Ellipsis => {
-                located_error!(SyntaxError::UnexpectedTemplate(self.clone()), location)
+                located_error!(SyntaxError::UnexpectedTemplate(self.clone()), self.location)
             }
         }
     }
@@ -369,6 +372,7 @@ impl SyntaxTemplate {
         template: &SyntaxTemplate,
         substitutions: &HashMap<String, (Datum, Vec<Datum>)>,
         item_index: usize,
+        location: Option<[u32; 2]>,
     ) -> Result<Option<Datum>, SchemeError> {
         Ok(match &template.data {
             SyntaxTemplateBody::Pair(list) => {
@@ -378,6 +382,7 @@ impl SyntaxTemplate {
                         &pair_item.get_inside().0,
                         substitutions,
                         item_index,
+                        location,
                     )? {
                         Some(sub_datum) => {
                             new_list_elements.push(pair_item.replace_inside(sub_datum))
@@ -389,18 +394,23 @@ impl SyntaxTemplate {
                     DatumBody::Pair(Box::new(GenericPair::from_pair_iter(
                         new_list_elements.into_iter(),
                     )?))
-                    .locate(template.location),
+                    .locate(location),
                 )
             }
             SyntaxTemplateBody::Vector(vec) => {
                 let mut new_vec = Vec::new();
                 for pair_item in vec.iter() {
-                    match Self::substitude_ellipsis_item(&pair_item.0, substitutions, item_index)? {
+                    match Self::substitude_ellipsis_item(
+                        &pair_item.0,
+                        substitutions,
+                        item_index,
+                        location,
+                    )? {
                         Some(sub_datum) => new_vec.push(sub_datum),
                         None => return Ok(None),
                     }
                 }
-                Some(DatumBody::Vector(new_vec).locate(template.location))
+                Some(DatumBody::Vector(new_vec).locate(location))
             }
             SyntaxTemplateBody::Identifier(var) => match substitutions.get(var) {
                 Some((_, vec)) => {
@@ -410,10 +420,10 @@ impl SyntaxTemplate {
                         vec.get(item_index).cloned()
                     }
                 }
-                None => Some(DatumBody::Symbol(var.clone()).locate(template.location)),
+                None => Some(DatumBody::Symbol(var.clone()).locate(location)),
             },
             SyntaxTemplateBody::Primitive(p) => {
-                Some(DatumBody::Primitive(p.clone()).locate(template.location))
+                Some(DatumBody::Primitive(p.clone()).locate(location))
             }
             SyntaxTemplateBody::Ellipsis => {
                 return located_error!(
@@ -427,21 +437,27 @@ impl SyntaxTemplate {
     fn substitute_template_element(
         template_element: &SyntaxTemplateElement,
         substitutions: &HashMap<String, (Datum, Vec<Datum>)>,
+        location: Option<[u32; 2]>,
     ) -> Result<Vec<Datum>, SchemeError> {
         match template_element {
             SyntaxTemplateElement(sub_template, true) => {
-                let mut result = sub_template.substitude(substitutions)?;
+                let mut result = sub_template.substitude(substitutions, location)?;
                 let mut suffix_item_index = 0;
-                while let Some(item) =
-                    Self::substitude_ellipsis_item(sub_template, substitutions, suffix_item_index)?
-                {
+                while let Some(item) = Self::substitude_ellipsis_item(
+                    sub_template,
+                    substitutions,
+                    suffix_item_index,
+                    location,
+                )? {
                     suffix_item_index += 1;
                     result.push(item)
                 }
                 Ok(result)
             }
 
-            SyntaxTemplateElement(sub_template, false) => sub_template.substitude(substitutions),
+            SyntaxTemplateElement(sub_template, false) => {
+                sub_template.substitude(substitutions, location)
+            }
         }
     }
 }
